@@ -32,6 +32,7 @@ type CrashRun struct {
 	walEnds         []int64  // wal end after op i (index i+1); walEnds[0] before the first op
 	states          []*crashState
 	curOp           int
+	keptPaged       []keptPaged // paged queries that were open when a dataset was deleted, to be followed again after a GC
 	maxSnap         int
 	fp              string
 	applied         []bool
@@ -614,6 +615,7 @@ func RunCrashScenario(sc *Scenario) (vd *Verdict) {
 					fail(viol(sc.Property, "shared-state", "deleted-datasets-map-mutated-in-place", "DeleteDataset(%s) added to the map of deleted datasets that lock-free readers (lookups, relationship queries, garbage collector) already hold: a concurrent map read and write ends the process", op.DS), i)
 					return
 				}
+				r.keptPaged = append(r.keptPaged, keptPaged{victim: op.DS, open: open})
 				if v := r.continuePagedAfterDelete(op.DS, open); v != nil {
 					fail(v, i)
 					return
@@ -692,6 +694,18 @@ func RunCrashScenario(sc *Scenario) (vd *Verdict) {
 			werr = server.NewGarbageCollector(r.H.Store, r.H.Env).Cleandeleted()
 			mgmt = true
 			r.Stats["gc_runs"]++
+			if werr == nil {
+				// the paged queries that were open when a dataset was deleted are followed once more, now that the
+				// collector has physically removed the deleted dataset's rows (the one their tokens name among them)
+				for _, kp := range r.keptPaged {
+					if v := r.continuePagedAfterDelete(kp.victim, kp.open); v != nil {
+						v.Signature += ":after-gc"
+						fail(v, i)
+						return
+					}
+				}
+				r.keptPaged = nil
+			}
 		case "resetStore":
 			// DELETE /datasets: the store is wiped and comes back as a new store (new storage id); the hub is
 			// restarted on it. Whatever sits in the backup location belongs to the old store from now on
@@ -1233,6 +1247,11 @@ func (r *CrashRun) takeoverBackupLocation() *Violation {
 
 
 // pagedOpen is a paged relationship query a client began before a dataset was deleted.
+type keptPaged struct {
+	victim string
+	open   []*pagedOpen
+}
+
 type pagedOpen struct {
 	start   string
 	inverse bool
@@ -1240,6 +1259,10 @@ type pagedOpen struct {
 	cont    []*server.RelatedFrom
 	victim  map[relPair]bool // what the dataset about to be deleted contributes to the answer
 	first   map[relPair]int  // what the first page (read before the delete) returned
+	allowed map[relPair]bool // what the surviving datasets of the scope held when the dataset was deleted (the query's instant lies before that)
+	judged  bool
+	heldBy  map[string]map[relPair]bool // per surviving dataset: what it held for the start entity when first judged
+	dsIDs   map[string]uint32 // internal ids of the surviving datasets when first judged (a name may be given to a new dataset later)
 }
 
 // startPagedBeforeDelete starts page-size-1 wildcard queries scoped to the dataset about to be deleted (and
@@ -1304,18 +1327,55 @@ func (r *CrashRun) continuePagedAfterDelete(victim string, open []*pagedOpen) *V
 				}
 			}
 		}
+		later := pq.judged // followed again after more history: only what must still come is judged
+		if pq.judged {
+			var same []string
+			for _, n := range survivors {
+				if ds := r.H.Dataset(n); ds != nil && pq.dsIDs[n] == ds.InternalID {
+					same = append(same, n)
+				}
+			}
+			survivors = same
+		} else {
+			pq.dsIDs = map[string]uint32{}
+			pq.heldBy = map[string]map[relPair]bool{}
+			for _, n := range survivors {
+				if ds := r.H.Dataset(n); ds != nil {
+					pq.dsIDs[n] = ds.InternalID
+				}
+				if !pq.inverse {
+					pq.heldBy[n] = r.M.Out(pq.start, "*", []string{n})
+				}
+			}
+		}
 		seen := map[relPair]bool{}
 		for p := range pq.first {
 			seen[p] = true
 		}
 		complete := true
 		allowed := map[relPair]bool{}
-		if len(survivors) > 0 {
+		if pq.judged {
+			// followed again later: what the surviving datasets held then and (datasets may have been deleted, entities
+			// rewritten since) still hold now
+			if !pq.inverse {
+				for _, n := range survivors {
+					now := r.M.Out(pq.start, "*", []string{n})
+					for p := range pq.heldBy[n] {
+						if now[p] {
+							allowed[p] = true
+						}
+					}
+				}
+			}
+		} else if len(survivors) > 0 {
 			if pq.inverse {
 				allowed = r.M.In(pq.start, "*", survivors)
 			} else {
 				allowed = r.M.Out(pq.start, "*", survivors)
 			}
+		}
+		if !pq.judged {
+			pq.allowed, pq.judged = allowed, true
 		}
 		cont := pq.cont
 		for guard := 0; len(cont) > 0 && guard < 100; guard++ {
@@ -1329,7 +1389,7 @@ func (r *CrashRun) continuePagedAfterDelete(victim string, open []*pagedOpen) *V
 				seen[p] = true
 				// judged: pairs the deleted dataset contributed and no surviving dataset of the scope ever held (a pair
 				// some version of a surviving dataset held may come back through the open inverse-scan finding KF-C03-1)
-				if !allowed[p] && pq.victim[p] && !everHeld(r.M, survivors, pq.start, pq.inverse, p) {
+				if !later && !allowed[p] && pq.victim[p] && !everHeld(r.M, survivors, pq.start, pq.inverse, p) {
 					dir := "out"
 					if pq.inverse {
 						dir = "in"
